@@ -212,6 +212,12 @@ def create_flow_instance(
 
 def add_new_flow_instance(state: State, flow_state: FlowState) -> FlowState:
     """Add a new flow instance to the current state."""
+    if flow_state.uid in state.flow_states:
+        # (the running instance would be overwritten while its heads stay registered)
+        raise ColangRuntimeError(
+            f"A flow instance with the uid '{flow_state.uid}' exists already"
+        )
+
     # Update state structures
     state.flow_states.update({flow_state.uid: flow_state})
     if flow_state.flow_id in state.flow_id_states:
